@@ -17,7 +17,9 @@ RULE = ('Hypothesis-generated class DAGs (3-9 classes created with type(); bases
         'instances equal, results are compared by identity); a generated assignment of exact types to 1-4 entities '
         'and a generated subset of processor classes; then EVERY class of the DAG is used as query type for all '
         'six methods (get, get_component, has_component, remove_component, get_processor, remove_processor), the '
-        'removing ones on a rebuilt world. Oracle: issubclass/isinstance. Non-trivial = the DAG has a class with '
+        'removing ones on a rebuilt world. Oracle: issubclass/isinstance. '
+        'In ~15% of the cases the world goes through 64-150 detach / re-attach (components) and remove / re-add (processors) cycles before it is queried. '
+        'Non-trivial = the DAG has a class with '
         '>= 2 bases and some query type reaches an attached exact type by >= 2 distinct inheritance paths. '
         'Distinct = sha1 of canonical JSON.')
 ASSUMPTIONS = [
